@@ -283,6 +283,9 @@ def judge(F, p, i, e, always_some, inv_ok, ptys=None):
                         return key, "D-range(lo(a)=%s >= hi(b)=%s)" % (ra[0], hi(rb)), None
                     if rel & {"Ge", "Gt", "Eq"}:
                         return key, "D2(dominating comparison %s between the operands)" % sorted(rel), None
+                    if (isinstance(a, tuple) and isinstance(b, tuple) and a[0] == "len" and b[0] == "len" and a[1] == b[1] and a[2] <= b[2]
+                            and only_shrinks(p, i, a[1])):
+                        return key, "D14(len(m) before - len(m) after: the map is only removed from on this path)", None
                     if field_pair(a, b) == ("size", "p") and INV.get("p_inv"):
                         return key, "D2(field invariant p <= size: C09.R1)", None
                     # a - 1 with a >= 1 from facts is covered by ranges (refine); power-of-two style `x - 1` with x = max(.., 2)
@@ -399,6 +402,17 @@ def _elem(p, t):
         if ce and (ce[0]["q"] or "").split("::")[-1] in ("index", "index_mut") and len(ce[0]["args"]) == 2:
             return (ce[0]["args"][0], _strip_casts(ce[0]["args"][1]))
     return None
+
+
+def only_shrinks(p, i, X):
+    """no event before position i can have grown the map X: every modelled operation on it is a lookup or a removal, and it is not handed
+    to an unmodelled function"""
+    for e in p.events[:i]:
+        if e.get("recv") == X and e.get("hm") not in ("remove", "get", "get_mut", "contains_key"):
+            return False
+        if e["ev"] == "call" and not e.get("hm") and any(isinstance(x, tuple) and x[0] == "ref" and x[1] == X for x in (e.get("args") or [])):
+            return False
+    return True
 
 
 def nibble_add(p, i, c, a, b):
